@@ -140,6 +140,10 @@ def run(ck, tier, seed):
     strs = [t for t in shapes if t.count('"') >= 2 and "$" in t]
     rnd.shuffle(strs)
     strs = strs[:2500 if quick else 20000]
+    # pinned: `$`, then a `;` or line break the scanner skips, then `{` opens no interpolation (fixed 9b1d770)
+    for i, t in enumerate(['"$;{"{', '"$;{"}', '"$\n{"{', '"$\n{"}', '"$;;{"(', '"a$;{" ]']):
+        given.append({"id": f"qp{i}", "text": t, "valid": False})
+        given.append({"id": f"qp{i}s", "text": "var a = " + t + '; var b = "}"', "valid": False})
     for i, t in enumerate(strs):
         given.append({"id": f"q{i}", "text": t, "valid": False})
         given.append({"id": f"q{i}s", "text": "var a = " + t + '; var b = "}"', "valid": False})
